@@ -13,20 +13,18 @@ import (
 func settings(tier string) []Setting {
 	var out []Setting
 	add := func(max, min int, mode string) {
-		r := 2*max + 2
+		s := Setting{Max: max, Min: min, Mode: mode, R: 2*max + 2, MaxOut: 2, MaxTable: 5, Dev: 1}
 		if tier == "thorough" {
-			r = 3*max + 3
-		}
-		s := Setting{Max: max, Min: min, Mode: mode, R: r, MaxOut: 2, MaxTable: 5, Dev: 1}
-		if tier == "thorough" {
+			s.R = 2*max + 5
 			s.Dev = 2
-			s.MaxOut = max
+			s.MaxOut = 3
+			s.MaxTable = 6
 		}
 		out = append(out, s)
 	}
 	hi := 5
 	if tier == "thorough" {
-		hi = 9
+		hi = 7
 	}
 	for max := 2; max <= hi; max++ {
 		for min := 2; min <= max; min++ {
@@ -37,8 +35,12 @@ func settings(tier string) []Setting {
 		}
 	}
 	if tier != "thorough" {
-		s := Setting{Max: 9, Min: 6, Mode: "atomic", R: 20, MaxOut: 2, MaxTable: 5, Dev: 1}
-		out = append(out, s)
+		out = append(out, Setting{Max: 9, Min: 6, Mode: "atomic", R: 20, MaxOut: 2, MaxTable: 5, Dev: 1})
+	} else {
+		for _, mm := range [][2]int{{9, 6}, {9, 9}, {8, 8}, {9, 2}, {8, 5}} {
+			add(mm[0], mm[1], "atomic")
+			add(mm[0], mm[1], "deferred")
+		}
 	}
 	return out
 }
@@ -50,7 +52,7 @@ func budget(tier string) time.Duration {
 		return time.Duration(v) * time.Second
 	}
 	if tier == "thorough" {
-		return 40 * time.Minute
+		return 30 * time.Minute
 	}
 	return 10 * time.Minute
 }
